@@ -23,6 +23,7 @@ func runC03(c *Ctx) {
 	if cf := c.CF("KEY"); cf != nil {
 		c19Keys(c, cf)
 	}
+	c03HandoffAge(c)
 	const rule = "RECORD"
 	// Go side: the per-flow record
 	if f := c.fn(rule, "control", "controlPlaneCore.RetrieveRoutingResult"); f != nil {
